@@ -87,6 +87,14 @@ def descriptions(rng, tier):
     eo = [native(1, ["H", "H", "M"], ["H2", "M"]), native(2, ["C", "O"], ["CO"]), native(3, ["CO", "M"], ["C", "O", "M"]),
           native(4, ["H2", "O"], ["OH", "H"])]
     out["elements-only"] = {"elements": ["H", "C", "O", "M"], "pseudo": [], "kwargs": {}, "files": [["\n".join(eo) + "\n", "naunet"]]}
+    # D8: a thermal network: several cooling processes, listed by the user in an order of their own
+    th = [native(1, ["H", "CR"], ["H+", "e-"], ty=101), native(2, ["H+", "e-"], ["H"], b=-0.6), native(3, ["He", "CR"], ["He+", "e-"], ty=101),
+          native(4, ["He+", "e-"], ["He"], b=-0.6), native(5, ["He+", "CR"], ["He++", "e-"], ty=101), native(6, ["He++", "e-"], ["He+"], b=-0.7)]
+    out["thermal"] = {"elements": DEFAULT_ELEMENTS, "pseudo": DEFAULT_PSEUDO, "kwargs": {}, "files": [["\n".join(th) + "\n", "naunet"]],
+                      "cooling": ["RC_HeII", "CIC_HI", "CEC_HeI", "RC_HII", "CIC_HeII", "CEC_HI", "CIC_HeI"]}
+    # D7: the spellings of D4's species under the default element list, where `HE` is hydrogen plus the element `E`
+    hd = [native(1, ["H", "H"], ["H2"]), native(2, ["HE+", "E"], ["HE"]), native(3, ["H+", "E"], ["H"])]
+    out["he-default-lists"] = {"elements": DEFAULT_ELEMENTS, "pseudo": DEFAULT_PSEUDO, "kwargs": {}, "files": [["\n".join(hd) + "\n", "naunet"]]}
     return out
 
 
@@ -154,7 +162,8 @@ def run(argv):
     pairs = [(a, b) for a in names for b in names if a != b]
     if tier == "quick":
         pairs = rng.sample(pairs, 6) + [("upper", "default"), ("gprefix", "upper"), ("krome2", "krome"), ("krome", "krome2"),
-                                        ("elements-only", "upper"), ("elements-only", "default")]
+                                        ("elements-only", "upper"), ("elements-only", "default"), ("krome", "he-default-lists"),
+                                        ("he-default-lists", "krome")]
     for a, b in pairs:
         steps = [{"op": "build", "id": "A", "desc": descs[a]}, {"op": "build", "id": "B", "desc": descs[b]},
                  {"op": "query", "id": "B"}, {"op": "render", "id": "B", "backend": BACKENDS[0], "tag": [b, "dense"]},
@@ -176,7 +185,9 @@ def run(argv):
              "krome": ("5,HE+,E,,HE,,,,NONE,NONE,1.0d-11", "krome"), "krome2": ("5,HE+,E,,HE,,,,NONE,NONE,1.0d-11", "krome"),
              "gprefix": (netgen.leeds_line(77, ["GH", "GCO"], ["GHCO"]), "leeds"),
              "multigroup": (native(77, ["#2N2"], ["N2"], a=1.0, ty=201), "naunet"),
-             "elements-only": (native(77, ["OH", "M"], ["O", "H", "M"]), "naunet")}
+             "elements-only": (native(77, ["OH", "M"], ["O", "H", "M"]), "naunet"),
+             "he-default-lists": (native(77, ["HE", "H+"], ["HE+", "H"]), "naunet"),
+             "thermal": (native(77, ["He", "H+"], ["He+", "H"]), "naunet")}
     for a in names:
         line, fmt = extra[a]
         base_steps = [{"op": "build", "id": "A", "desc": descs[a]}, {"op": "add_line", "id": "A", "line": line, "fmt": fmt},
